@@ -487,7 +487,8 @@ def parse_name_list(text, header):
     m = re.search(r'^%s\n((?:   .*\n?)*)' % re.escape(header), text, re.M)
     if not m:
         return None
-    return [ln[3:].rstrip('\n') for ln in m.group(1).splitlines()]
+    # (split at LF only: a test id may contain FF, VT, U+2028 ...)
+    return [ln[3:] for ln in m.group(1).split('\n') if ln]
 
 
 def run_plain(argv, roots=(), want_state=False):
